@@ -258,7 +258,7 @@ func checkC11(w *World, r *Report) {
 				locked = false
 			}
 			if e.Kind == "call" && e.Callee != nil && (e.Callee == ro.CancelInt || len(ro.callsReaching(e.Callee, func(f *ssa.Function) bool { return f == ro.CancelInt })) > 0 && e.Callee.Signature.Params().Len() == 1) {
-				if e.Val == "recv,rangekey(recv.jobsByID)" && locked && forced {
+				if (e.Val == "recv,rangekey(recv.jobsByID)" || e.Val == "recv,rangeval(recv.jobsByID)") && locked && forced {
 					cancels = true
 				} else {
 					okGraceful = false
